@@ -17,12 +17,12 @@ import (
 	"strings"
 )
 
-func leanStr(s string) string { return strconv.Quote(s) }
+func storeLeanStr(s string) string { return strconv.Quote(s) }
 
-func leanStrList(xs []string) string {
+func storeLeanStrList(xs []string) string {
 	q := make([]string, len(xs))
 	for i, x := range xs {
-		q[i] = leanStr(x)
+		q[i] = storeLeanStr(x)
 	}
 	return "[" + strings.Join(q, ", ") + "]"
 }
@@ -133,7 +133,7 @@ func genCacheCalls(repo string) (string, error) {
 		if i == len(facts)-1 {
 			sep = ""
 		}
-		fmt.Fprintf(&b, "  (%s, %s)%s\n", leanStr(f.name), leanStrList(f.calls), sep)
+		fmt.Fprintf(&b, "  (%s, %s)%s\n", storeLeanStr(f.name), storeLeanStrList(f.calls), sep)
 	}
 	b.WriteString("]\n\n/-- GetCheckpoint assigns `x.SupLinks = append(x.SupLinks, …)` on the looked-up object itself -/\n")
 	fmt.Fprintf(&b, "def getCheckpointAppendsInPlace : Bool := %v\n\nend BytomModel.Gen.CacheCalls\n", appendInPlace == 1)
@@ -252,7 +252,7 @@ func genLoopVarAddr(repo string) (string, error) {
 		if i == len(facts)-1 {
 			sep = ""
 		}
-		fmt.Fprintf(&b, "  (%s, %s, %s)%s\n", leanStr(f.fn), leanStr(f.v), leanStr(f.use), sep)
+		fmt.Fprintf(&b, "  (%s, %s, %s)%s\n", storeLeanStr(f.fn), storeLeanStr(f.v), storeLeanStr(f.use), sep)
 	}
 	b.WriteString("]\n\nend BytomModel.Gen.LoopVarAddr\n")
 	return b.String(), nil
